@@ -2299,7 +2299,24 @@ impl SctpInner {
 
             {
                 let mut received_queue = self.received_queue.lock();
-                received_queue.retain(|&tsn, _| tsn_gt(tsn, new_cumulative_tsn));
+                // Chunks buffered out of order were charged to the receive
+                // window when they were stored: give the credit back for the
+                // ones the skip discards.
+                let mut freed = 0usize;
+                received_queue.retain(|&tsn, (_, chunk)| {
+                    let keep = tsn_gt(tsn, new_cumulative_tsn);
+                    if !keep {
+                        freed += chunk.len();
+                    }
+                    keep
+                });
+                if freed > 0 {
+                    let _ = self.used_rwnd.fetch_update(
+                        Ordering::Relaxed,
+                        Ordering::Relaxed,
+                        |used| Some(used.saturating_sub(freed)),
+                    );
+                }
             }
 
             // Advance SSNs for ordered streams
